@@ -492,7 +492,24 @@ Core(m, e) ==
     [] e.e = "Quiescent" -> [m |-> m, bad |-> EndOfInstant(m, TRUE, m.now)]
     [] e.e = "Missing" -> [m |-> m, bad |-> Bad("C13", "documented-entry-point-missing")]
 
-    [] OTHER -> [m |-> m, bad |-> {}]      \* Exec, Wake, Disp, Skip, EndProg, Crash: diagnostics only
+    [] e.e = "Wake" ->
+         \* the library's own wake-up events name their kind: one that belongs to a kind of wait may only reach a process
+         \* that is in such a wait (a left wait cancels its pending wake-up; an ended process has none)
+         LET op == IF e.p \in Procs(m) THEN m.blk[e.p].op ELSE "none"
+             dead == e.p \in Procs(m) /\ m.st[e.p] = "done"
+         IN [m |-> m,
+             bad |-> IF e.k \in {"process", "event", "resource", "condition"} /\ dead
+                       THEN Bad("C09", "pending-wake-up-fired-for-an-ended-process")
+                     ELSE IF e.k = "process" /\ op # "wproc"
+                       THEN Bad("C09", "end-notice-reached-a-process-no-longer-waiting-for-it")
+                     ELSE IF e.k = "event" /\ op # "wevent"
+                       THEN Bad("C04", "stale-event-wake-up-reached-a-process-not-waiting-for-an-event")
+                     ELSE IF e.k = "condition" /\ op # "cwait"
+                       THEN Bad("C04", "stale-condition-wake-up-reached-a-process-not-waiting-on-the-condition")
+                     ELSE IF e.k = "resource" /\ op \notin {"acq", "pre", "pacq", "ppre", "bput", "bget", "qput", "qget", "pqput", "pqget", "cwait"}
+                       THEN Bad("C04", "stale-grant-wake-up-reached-a-process-not-waiting-on-a-guard")
+                     ELSE {}]
+    [] OTHER -> [m |-> m, bad |-> {}]      \* Exec, Disp, Skip, EndProg, Crash: diagnostics only
 
 MStep(m, e) ==
   LET adv == IF "t" \in DOMAIN e /\ e.e # "Prog" THEN Advance(m, e.t) ELSE [m |-> m, bad |-> {}]
